@@ -37,7 +37,10 @@ def make_jobs(rng, tier, n_gen=10, n_bench=3, n_traj=5):
             p["restrictiveness"] = rng.randint(1, 4)
             p["uniform"] = False
             configs.fix_params(p, rng)
-        jobs.append({"id": jid, "kind": "gen", "params": p})
+        job = {"id": jid, "kind": "gen", "params": p}
+        if rng.random() < 0.3:
+            job["seed_type"] = "np.int64"     # a NumPy integer as the seed
+        jobs.append(job)
         jid += 1
     for _ in range(n_bench):
         jobs.append({"id": jid, "kind": "genbench",
